@@ -602,7 +602,9 @@ class file_keepalive_based_lock(file_based_lock):
         main process is active on this task
         """
         # No need to be gentle. Killing it straight away is safe.
-        self.monitor = Popen([sys.executable, "-m", "jug.backends.file_keepalive_monitor", self.fullname])
+        # The monitor is told who it works for: it cannot find that out
+        # reliably by itself (see file_keepalive_monitor.main)
+        self.monitor = Popen([sys.executable, "-m", "jug.backends.file_keepalive_monitor", self.fullname, str(os.getpid())])
 
     def stop_monitor(self):
         """Stop side-kick process that ensures locks are refreshed while
